@@ -1755,6 +1755,8 @@ class Cat(Funsor, metaclass=CatMeta):
 @eager.register(Cat, str, tuple, str)
 def eager_cat(name, parts, part_name):
     if len(parts) == 1:
+        if part_name != name:  # same precondition as Cat.__init__
+            assert name not in parts[0].inputs
         return parts[0](**{part_name: name})
     return eager_cat_homogeneous(name, part_name, *parts)
 
